@@ -229,7 +229,9 @@ func (e *Engine) point(site string, id uint64) {
 		e.mu.Unlock()
 		return
 	}
-	if e.enabled != nil && !e.enabled[role(site)] {
+	if rl := role(site); e.enabled != nil && !e.enabled[rl] && rl != "compactor" && rl != "merge" {
+		// (ticker-driven goroutines always park at their tick: left free-running
+		// they would spin through every tick of a long simulated clock jump)
 		// still give the goroutine its stable name
 		e.nameLocked(gid, site, id)
 		e.mu.Unlock()
